@@ -22,15 +22,21 @@ func RedactSQLQuery(sql string) (string, error) {
 	return comments.Leading + String(stmt) + comments.Trailing, nil
 }
 
-// redactNumbersLeftByNormalize replaces the numeric literals Normalize leaves in place because it cannot
-// represent them as bind values (99999999999999999999, 1e999, 08): they are literals of the statement all the same
-// and must not show up in its redacted form.
+// redactNumbersLeftByNormalize replaces the literals Normalize leaves in place: numeric literals it cannot
+// represent as bind values (99999999999999999999, 1e999, 08) and hexadecimal / bit-value literals (X'4D79', 0x4D79,
+// b'0101'), which spell a string or a number of the statement just like the quoted and decimal forms do. They are
+// literals of the statement all the same and must not show up in its redacted form.
 func redactNumbersLeftByNormalize(stmt Statement) {
 	reserved := GetBindvars(stmt)
 	counter := len(reserved) + 1
 	_ = Walk(func(node SQLNode) (bool, error) {
 		val, ok := node.(*SQLVal)
-		if !ok || (val.Type != IntVal && val.Type != FloatVal) {
+		if !ok {
+			return true, nil
+		}
+		switch val.Type {
+		case IntVal, FloatVal, HexNum, HexVal, BitVal:
+		default:
 			return true, nil
 		}
 		name := ValueMask + strconv.Itoa(counter)
